@@ -296,6 +296,20 @@ pub fn run_c03(a: &Args) {
             }
         }
         cases.push(case_of(&o, why, format!("{}:{}:{}", if sc.real_localization.is_some() { "fixedloc" } else { "mockloc" }, match &sc.verdicts.select { Ok(Some(_)) => "chosen", Ok(None) => "none", Err(()) => "selerr" }, reach(&o))));
+        // the built-in localisation against its Lean model, on this table set: the client's locale and a few others, both keys
+        if let Some((default, tables)) = &sc.real_localization {
+            use passage_adapters::localization::LocalizationAdapter;
+            let adapter = std::sync::Arc::new(passage_adapters::FixedLocalizationAdapter::new(default.clone(), tables.iter().cloned().map(|(l, kv)| (l, kv.into_iter().collect())).collect()));
+            let ttok = if tables.is_empty() { "-".to_string() } else { tables.iter().map(|(l, kv)| format!("{}={}", hex(l.as_bytes()), kv.iter().map(|(k, v)| format!("{}:{}", hex(k.as_bytes()), hex(v.as_bytes()))).collect::<Vec<_>>().join(","))).collect::<Vec<_>>().join(";") };
+            let other = rng.pick(&["de_DE", "a_b_c", "é_FR", "日本_JP", "_x", "x_", "a__b", "", "zz"]).to_string();
+            for (loc, key) in [(Some(plan.locale.clone()), "disconnect_no_target"), (Some(other), "disconnect_timeout"), (None, "disconnect_no_target"), (Some(plan.locale.clone()), "no_such_key")] {
+                let (ad, l2, k2) = (adapter.clone(), loc.clone(), key.to_string());
+                // on its own thread: a panic in the adapter is an observation, not the end of the runner
+                let got = std::thread::spawn(move || { let rt = tokio::runtime::Builder::new_current_thread().build().unwrap(); rt.block_on(ad.localize(l2.as_deref(), &k2, &[])) }).join();
+                let (observed, oracle) = match got { Ok(Ok(s)) => (hex(s.as_bytes()), None), Ok(Err(e)) => (format!("err:{e}"), Some(format!("built-in localisation failed for locale {loc:?}: {e}"))), Err(_) => ("panic".to_string(), Some(format!("built-in localisation panicked for locale {loc:?}"))) };
+                cases.push(Case { request: format!("c03.loc {} {} {} {ttok}", hex(default.as_bytes()), loc.as_ref().map_or("-".to_string(), |l| hex(l.as_bytes())), hex(key.as_bytes())), observed, oracle, class: "builtin-localisation".into() });
+            }
+        }
     }
     finish("c03", a, cases);
 }
